@@ -7,6 +7,7 @@ import (
 
 	zz "github.com/AliyunContainerService/terway/internal/zzverif"
 	"github.com/vishvananda/netlink"
+	"golang.org/x/sys/unix"
 )
 
 // C14(a) IPv4: for every network n, prefix p in 0..32 and address a, the u32
@@ -144,4 +145,43 @@ func ZZ_C14_matchsrc_filters() {
 	MatchSrc(fb, cidrA)
 	zz.Assert(same(fb.Sel.Keys, append(append([]netlink.TcU32Key(nil), wantB...), wantA...)) && int(fb.Sel.Nkeys) == len(wantA)+len(wantB), "a second MatchSrc on the same filter appends its keys")
 	zz.Assert(same(fa.Sel.Keys, wantA), "and leaves other filters untouched")
+}
+
+// C14(a) lookup side: the filter FilterBySrcIP finds for an address is a
+// filter whose selector carries *every* key of that address' CIDR - never one
+// that merely shares a key (two IPv6 pods of one vSwitch share the first
+// 32-bit words).  Two installed /128 classifiers with arbitrary addresses, an
+// arbitrary address looked up: the result is the classifier installed for
+// exactly that address, or nothing.
+// zz:noreplay the kernel's filter list is replaced through an engine-side override
+func ZZ_C14_filter_lookup() {
+	mk := func(name string) (*net.IPNet, [4]uint32) {
+		var w [4]uint32
+		ip := make(net.IP, 16)
+		for i := 0; i < 4; i++ {
+			w[i] = zz.Uint32(name + ".w" + string(rune('0'+i)))
+			ip[4*i], ip[4*i+1], ip[4*i+2], ip[4*i+3] = byte(w[i]>>24), byte(w[i]>>16), byte(w[i]>>8), byte(w[i])
+		}
+		return &net.IPNet{IP: ip, Mask: net.CIDRMask(128, 128)}, w
+	}
+	a, wa := mk("a")
+	b, wb := mk("b")
+	q, wq := mk("q")
+	zz.Assume(a.IP.To4() == nil && b.IP.To4() == nil && q.IP.To4() == nil) // IPv4-mapped addresses: see ZZ_C14_matchsrc_filters
+	link := &netlink.Dummy{LinkAttrs: netlink.LinkAttrs{Index: 7, Name: "eth1"}}
+	fa := &netlink.U32{FilterAttrs: netlink.FilterAttrs{LinkIndex: 7, Parent: 1, Protocol: unix.ETH_P_IP}, ClassId: 11}
+	fb := &netlink.U32{FilterAttrs: netlink.FilterAttrs{LinkIndex: 7, Parent: 1, Protocol: unix.ETH_P_IP}, ClassId: 12}
+	MatchSrc(fa, a)
+	MatchSrc(fb, b)
+	zz.Override("github.com/vishvananda/netlink.FilterList", func(l netlink.Link, parent uint32) ([]netlink.Filter, error) {
+		return []netlink.Filter{fa, fb}, nil
+	})
+	got, err := FilterBySrcIP(link, 1, q)
+	zz.Assert(err == nil, "the lookup succeeds")
+	eqA := zz.And(wq[0] == wa[0], wq[1] == wa[1], wq[2] == wa[2], wq[3] == wa[3])
+	eqB := zz.And(wq[0] == wb[0], wq[1] == wb[1], wq[2] == wb[2], wq[3] == wb[3])
+	zz.Assert(zz.Implies(got == fa, eqA), "a classifier is only found for the address it was installed for (all keys match)")
+	zz.Assert(zz.Implies(got == fb, eqB), "a classifier is only found for the address it was installed for (all keys match)")
+	zz.Assert(zz.Implies(got == nil, zz.And(!eqA, !eqB)), "an installed classifier is found")
+	zz.Assert(got == nil || got == fa || got == fb, "the result is one of the installed filters")
 }
